@@ -39,3 +39,9 @@ CHECKS["C08"] = dict(
     rule="for each of ~70 constant-time entry points (windows) and each secret assignment sigma of the alphabet, the kept trace (instructions inside library/crypto symbols, plus mem*/bytealg/bytes routines entered from them, with every load/store address) must be bit-identical to the trace for sigma0, in each of the four configurations; sigma0 is traced twice as a determinism self-check; a difference counts only if it reproduces in 5 fresh run pairs. Non-trivial = (window, sigma) with sigma != sigma0",
     assumptions=["trace identity on a finite secret alphabet (complete for table indices [-8,8] and selector bits), not a proof for all secrets", "micro-architectural leakage below instruction/address level is out of scope", "valgrind lackey reports every executed guest instruction and memory access"],
 )
+
+CHECKS["C19"] = dict(
+    bin="c19", level="exploration",
+    rule="for each of ~55 byte-taking entry points (decoders of curve, scalar, ed25519, sr25519, ecvrf; single/expanded/batch/cached/sr25519/ECVRF verification; X25519; message expanders; transcript operations): every length 0..2*size+2 (0..300/700 for variable-length arguments) x 5 content classes (zeros, 0xff, valid encoding truncated/zero-extended, valid encoding 0xff-extended, valid encoding repeated) x nil x {fresh, previously set} receiver, each call under recover(); oracle: no panic outside the documented allow-list (keyed by function and condition), wrong length => error/false, the valid encoding is accepted, after a failure the receiver equals the documented neutral value (types that document a reset) or is bit-identical to its pre-call value. Non-trivial = wrong-length case or a case derived from a valid encoding",
+    assumptions=["content classes, not all byte strings (the exact accept sets are C05/C10/C11/C12/C15)"],
+)
